@@ -21,11 +21,12 @@ PROPS["C02"] = {
 
 PROPS["C06"] = {
     "level": "exploration",
-    "rule": "scan leg: one evaluation = one sandbox (tree with files of every offline built-in extractor at production paths in the states valid/empty/truncated/corrupt, working directory, TMPDIR) scanned once under one capability tuple through a real or a virtual root; non-trivial = the tree holds a file of an enabled extractor that reads through a host path (os/rpm, dotnet/pe, containers/containerd). image leg: one evaluation = one set of hostile layer tars loaded by one of FromV1Image / FromTarball / UnpackSquashed / UnpackSquashedFromTarball (+ CleanUp); non-trivial = at least one entry whose cleaned name or link target lies lexically outside the designated directory, or a symlink-then-write-through sequence; distinct by case JSON",
+    "rule": "scan leg: one evaluation = one sandbox (tree with files of every offline built-in extractor at production paths in the states valid/empty/truncated/corrupt, working directory, TMPDIR) scanned once under one capability tuple through a real or a virtual root; non-trivial = the tree holds a file of an enabled extractor that reads through a host path (os/rpm, dotnet/pe, containers/containerd). image leg: one evaluation = one set of hostile layer tars loaded by one of FromV1Image / FromTarball / UnpackSquashed / UnpackSquashedFromTarball (+ CleanUp); non-trivial = at least one entry whose cleaned name or link target lies lexically outside the designated directory, or a symlink-then-write-through sequence; distinct by case JSON. Two of five image cases carry a shared-link-target group: 2..4 symlink / hard-link entries at depths 1..5 with one byte-identical relative target string ('..', '../..', '../../..', '../x', '../../<existing sibling>', './..', 'a/../../..', ...), deepest first, shallowest first or as drawn, inside one layer or spread over the layers in the order the loader reads them, each usually followed by a regular entry written through it (<link>/escaped/<file>); classes 'shared_link_target_diff_depth' (+ _deep_first, _shallow_first, _hardlink, _symlink, _same_layer, _cross_layer, _harmless_then_escaping[_hardlink|_cross_layer|_to_existing], _escaping_then_harmless, _both_escaping, _both_harmless, _written_through_escaping[_later]), 'shared_link_target:<string>' and 'shared_link_depth:<n>' count the cases that contain such a pair, each label once per case, positions taken in the stream order of the loader (UnpackSquashed reads the top layer first)",
     "assumptions": [
         "scan: Capabilities is always set; a virtual root is scanned with DirectFS=false, a real root with DirectFS=true; java/pomxmlnet (network) is not enabled",
         "scan: os/rpm runs with a 300 ms parse timeout instead of 5 min (C02 known finding os/rpm|bdb_overflow_cycle_timeout); trees with sockets/FIFOs are out of scope",
-        "image: every generated escape is bounded to stay inside the sandbox (targets >= 6 directories below the sandbox root, <= 4 '..' per name, absolute paths only name sandbox paths); the loaders run inside a chroot of the sandbox when chroot is permitted (evidence key jail_active)",
+        "image: every generated escape is bounded to stay inside the sandbox (targets >= 6 directories below the sandbox root, <= 4 '..' per name or link target, <= 3 in a shared link target, absolute paths only name sandbox paths); the loaders run inside a chroot of the sandbox when chroot is permitted (evidence key jail_active); without a jail the sandbox root lies 96 directories deeper and the sum of the '..' segments of all link entries of a case plus the largest number in one name (<= 88, <= 76 with a shared-target group; asserted per case) stays below that",
+        "image: the names of a shared-target group never pass through another link entry (directory names and link names come from disjoint sets), so the known finding c06.unpack_link_physical_escape does not rewrite them; the unpack loaders create hard-link entries the way they create symlinks",
         "only effects inside the sandbox are observable",
     ],
     "engine": "rapid",
